@@ -84,6 +84,7 @@ type opWorld struct {
 type epochAt struct {
 	step      int
 	ver, conf uint64
+	region    *core.RegionInfo // PD's view at that epoch
 }
 
 type hbSeen struct {
@@ -372,7 +373,7 @@ func (ow *opWorld) monitorOps() {
 		h := ow.epochHist[r.GetID()]
 		e := r.GetRegionEpoch()
 		if n := len(h); n == 0 || h[n-1].ver != e.GetVersion() || h[n-1].conf != e.GetConfVer() {
-			ow.epochHist[r.GetID()] = append(h, epochAt{ow.RC.S.Step, e.GetVersion(), e.GetConfVer()})
+			ow.epochHist[r.GetID()] = append(h, epochAt{ow.RC.S.Step, e.GetVersion(), e.GetConfVer(), r})
 		}
 	}
 	inSet := map[*operator.Operator]bool{}
@@ -438,6 +439,17 @@ func (ow *opWorld) foreignSeenByPD(region uint64, created time.Time) int {
 		}
 	}
 	return n
+}
+
+// pdRegionAt returns PD's view of a region when it had the given epoch (nil if never observed).
+func (ow *opWorld) pdRegionAt(id uint64, e *metapb.RegionEpoch) *core.RegionInfo {
+	h := ow.epochHist[id]
+	for i := len(h) - 1; i >= 0; i-- {
+		if h[i].ver == e.GetVersion() && h[i].conf == e.GetConfVer() {
+			return h[i].region
+		}
+	}
+	return nil
 }
 
 // pdRegion returns PD's cached view of a region.
